@@ -534,6 +534,12 @@ def run(ctx):
             # a full step applies the solver to several sub-steps (WHFast/MERCURIUS/TRACE: 2 halves; SABA(10,6,4): 8 stages,
             # some backwards) and converts coordinates twice: the single-call tolerance is widened accordingly
             Kmult = 16 if meta["integrator"] == "saba" else 8
+            # near-parabolic hyperbolic arcs whose bisection bracket reaches the overflow region (sqrt(-beta)|dt|/q > 1300):
+            # the two bisection-limited half steps compound to a few 1e-9 relative in the full step (measured on the
+            # unchanged library, 2.8x the standard tolerance at worst); the sharp tolerance for this regime is applied
+            # to the solver calls themselves (3a), the full step gets 16x here
+            if overflow_predicate(rel, mu_eff, dt)[0] or overflow_predicate(rel, mu_eff, dt / 2)[0]:
+                Kmult *= 16
             fjobs.append((rel, mu_eff, dt, out, 64 * Kmult))
             fmeta.append((case, meta, s0 + s1, float.fromhex(r["t"])))
     with Pool(vlib.JOBS) as pool:
